@@ -230,3 +230,30 @@ def run_prop(ck, prop, ks, extra=None):
         else:
             ck.merge(r[prop])
     return ck
+
+
+def suite_as_workload(ck, prop):
+    """Thorough tiers: the repository's own test-suite runs as one more workload under the post-condition shims
+    (vf/pytest_plugin.py).  Test outcomes are ignored; only the journal counts."""
+    import json
+    import os
+    import subprocess
+
+    d = core.scratch("suite")
+    jpath = os.path.join(d, "journal.json")
+    env = core.child_env(VF_JOURNAL=jpath)
+    try:
+        subprocess.run([core.PY, "-m", "pytest", "-q", "-p", "no:cacheprovider", "-p", "vf.pytest_plugin", "-x", "--timeout=900", "tests"],
+                       cwd=core.REPO, env=env, capture_output=True, text=True, timeout=1200)
+    except subprocess.TimeoutExpired:
+        ck.count("suite_workload_watchdog")
+        return
+    if not os.path.exists(jpath):
+        ck.count("suite_workload_no_journal")
+        return
+    j = json.load(open(jpath))
+    for k, v in j["counters"].items():
+        ck.count("suite:" + k, v)
+    for v in j["violations"]:
+        if v["prop"] == prop:
+            ck.violation("suite-workload:" + v["key"], v["summary"], {"workload": "repository test-suite", "summary": v["summary"]})
